@@ -308,6 +308,9 @@ public:
         // Per POSIX:
         // > if multiple patches are applied to the same file, the .orig file will be written only for the first patch
         if (m_backed_up_files.emplace(backup_file).second) {
+            // A prefix may name a directory (-B old/), which has to be there for the backup to go to.
+            ensure_parent_directories(backup_file);
+
             // If the output file being backed up exists, rename name that as the backup.
             // For a missing output file just create an empty backup file instead.
             if (filesystem::exists(file_path))
